@@ -172,9 +172,9 @@ class BaseMetricLearner(BaseEstimator, metaclass=ABCMeta):
                        estimator=self,
                        tuple_size=getattr(self, '_tuple_size', None),
                        **kwargs)
-    # Conform to SLEP010
-    if not hasattr(self, 'n_features_in_'):
-      self.n_features_in_ = (outs if y is None else outs[0]).shape[1]
+    # Conform to SLEP010 (the number of features of the points seen by this
+    # call: the last axis, also for tuples)
+    self.n_features_in_ = (outs if y is None else outs[0]).shape[-1]
     return outs
 
   @abstractmethod
